@@ -250,11 +250,6 @@ def part_replay(ctx, res, tally):
         raise vlib.Inconclusive("pipeline replay stopped on a hang that was not reproduced")
     if psum["vectors"] != npipe and not psum["hangs"]:
         raise vlib.Inconclusive("pipeline replay consumed %d of %d vectors" % (psum["vectors"], npipe))
-    seen = {c for c, n in psum["classes"].items() if n}
-    # cname-empty is exactly the known finding: it is never observed while the finding is open.
-    need = {"pass", "cname-upstream", "cname-addresses", "addresses", "empty"}
-    if not need <= seen:
-        raise vlib.Inconclusive("pipeline sample did not exercise: %s" % sorted(need - seen))
     res["pipe"] = psum
 
 
@@ -300,7 +295,8 @@ def part_trace(ctx, res, tally):
                 continue
             reproduced += 1
             rec = {"lvl": lvl, "tab": ln["tab"], "table": ln["table"], "h": x["h"], "qt": x["qt"], "query": x["query"],
-                   "expect": b["exp"], "expected": pr.get("expected"), "got": pr.get("got"), "hang": pr.get("hang", False),
+                   "expect": b["exp"], "expected": pr.get("expected") or b["exp"], "got": pr.get("got"),
+                   "hang": pr.get("hang", False),
                    "trace_observation": x}
             tally.report(ctx, rec, "trace (%s): %s %s observed %s, spec admits %s, table %s" % (
                 lvl, x["query"], x["qt"], json.dumps(pr.get("got")), json.dumps(pr.get("expected")), json.dumps(ln["table"])))
@@ -342,6 +338,14 @@ def run(ctx):
             raise e
     if errs:
         raise errs[0]
+
+    # Vacuity of the pipeline sample (only meaningful when nothing is reported:
+    # a disagreement can be the very reason a class was not observed).
+    # cname-empty is exactly the open finding: it is never observed while that is open.
+    seen = {c for c, n in res["pipe"]["classes"].items() if n}
+    need = {"pass", "cname-upstream", "cname-addresses", "addresses", "empty"}
+    if not ctx.violations and not need <= seen:
+        raise vlib.Inconclusive("pipeline sample did not exercise: %s" % sorted(need - seen))
 
     sets = res["sets"]
     nvec = sum(len(vs) for _, _, vs in sets)
